@@ -55,9 +55,15 @@ func (w *World) readsBidList(fn *ssa.Function) bool {
 // mapUpdatesOf: the (key,value) terms of every MapUpdate on the local map mm in its function.
 func mapUpdatesOf(tm *Terms, fr *Frame, mm ssa.Value) (keys, vals []*Term) {
 	fn := fr.Fn
+	want := tm.Of(fr, mm).Key()
 	for _, b := range fn.Blocks {
 		for _, in := range b.Instrs {
-			if mu, ok := in.(*ssa.MapUpdate); ok && mapRoot(mu.Map) == mapRoot(mm) {
+			mu, ok := in.(*ssa.MapUpdate)
+			if !ok {
+				continue
+			}
+			// the same SSA value, or a field / variable that holds exactly this map
+			if mapRoot(mu.Map) == mapRoot(mm) || tm.Of(fr, mu.Map).Key() == want {
 				keys = append(keys, tm.Of(fr, mu.Key))
 				vals = append(vals, tm.OperandAt(fr, in, mu.Value))
 			}
